@@ -116,7 +116,7 @@ def generate(prop, rng, tier):
             op['path'] = rng.choice(['oop', 'ip'])
             op['fill'] = rng.choice(GARBAGE)
             op['effort'] = rng.choice([None, None, 'estimate', 'measure'])
-            op['olay'] = rng.choice(LAYOUTS)
+            op['olay'] = rng.choice(LAYOUTS + ['interleaved'])
         if t == 'create_tmp':
             op['r'], op['f'] = rng.random() < 0.7, rng.random() < 0.7
         if t == 'init_plan':
@@ -415,9 +415,26 @@ def _call(plan, cfg, objs, op, xs, ys, eps, ctx, fired, S, real_full):
         else:
             with seams.allocator('zero'):
                 y = obj.range.element()
-                if op.get('olay', 'C') != 'C':
-                    y = SP.relayout(y, op['olay'])
-                    ctx.fired('layout-out-' + op['olay'])
+                olay = op.get('olay', 'C')
+                if olay == 'interleaved':
+                    # x and out as two columns of one table (seed d18):
+                    # disjoint memory inside the same bounds
+                    olay = 'C'
+                    xa0 = x.asarray()
+                    if obj.range.shape == obj.domain.shape and \
+                            obj.range.dtype == obj.domain.dtype:
+                        tab = np.zeros(xa0.shape + (2,), dtype=xa0.dtype)
+                        tab[..., 0] = xa0
+                        x2 = obj.domain.element(tab[..., 0])
+                        y2 = obj.range.element(tab[..., 1])
+                        if np.shares_memory(x2.asarray(), tab) and \
+                                np.shares_memory(y2.asarray(), tab):
+                            x, y = x2, y2
+                            snap = elem_snapshot(x)
+                            ctx.fired('layout-interleaved-x-out')
+                if olay != 'C':
+                    y = SP.relayout(y, olay)
+                    ctx.fired('layout-out-' + olay)
             used = fill_elem(y, op['fill'], 3)
             ctx.fired('out-' + str(used))
             ret = obj(x, out=y, **kw)
